@@ -7,6 +7,7 @@ full network state after it; `random` in the module's namespace is replaced by a
 (Model/StochNet.v) replays the op sequence with the logged choices and must reproduce every
 snapshot (occupants, queue order, ev.station_id of every EV, counters, number of draws, the set of
 sessions that left).  Every scenario is run twice with the same seed (reproducibility)."""
+import os
 import time
 from harness.core import z, coq_list, coq_bool, coq_opt, coq_str
 
@@ -24,7 +25,9 @@ RULE = ("stream 1: one case = one run of the real Simulator with a StochasticNet
         "uncontrolled / scripted-random / sorted (FCFS) scheduler, random.seed(k); the state after EVERY network call "
         "(every plugin, unplug and the post_charging_update of every period) is compared; distinct = distinct "
         "(scenario, seed); non-trivial = a queue formed at some point; stream 2 (direct): the same network calls "
-        "for an arbitrary well-formed history (longer queues, arbitrary fully-charged sets, stale Unplug events)")
+        "for an arbitrary well-formed history (longer queues, arbitrary fully-charged sets, stale Unplug events; every 4th "
+        "one aims at order dependence inside post_charging_update: more satisfied EVs than waiters); every case is also run in two "
+        "fresh interpreters with PYTHONHASHSEED=1 / 4242 (the check runs with 0) and the recorded runs must be identical")
 ASSUMPTIONS = ["each session is plugged in once and unplugged once, after its plugin (C01); the monitor re-checks it on every recorded run",
                "EV objects are identified with their session ids; random.choice is an arbitrary index into the free list",
                "theorems are about Model/StochNet.v; the model is tied to stochastic_network.py by the per-call state comparison "
@@ -84,9 +87,85 @@ def rand_direct(rng, tier="quick"):
                 max_recompute=None, seed=rng.randint(0, 10 ** 6), ops=ops)
 
 
+def rand_hashprobe(rng):
+    """direct history aimed at order dependence inside post_charging_update: all stations taken, fewer EVs waiting
+    than satisfied EVs connected, everybody reported fully charged in the same period"""
+    n = rng.choice([2, 3, 3, 4, 5])
+    w = rng.randint(1, n - 1)
+    m = n + w + rng.randint(0, 2)
+    sessions = [dict(k=k, arrival=0, departure=1, energy=rng.choice([1.0, 5.0]), max_power=7.68) for k in range(m)]
+    order = list(range(m))
+    rng.shuffle(order)
+    first, later = order[:n + w], order[n + w:]
+    ops = [["A", k] for k in first]
+    ops.append(["P", sorted(rng.sample(first, rng.randint(max(2, w + 1), len(first))) if rng.random() < 0.5 else first)])
+    for k in later:
+        ops.append(["A", k])
+    ops.append(["P", sorted(order)])
+    rest = list(order)
+    rng.shuffle(rest)
+    for k in rest:
+        ops.append(["D", k])
+        if rng.random() < 0.3:
+            ops.append(["P", sorted(order)])
+    ops.append(["P", []])
+    return dict(n=n, sessions=sessions, early=True, sched="direct", sched_seed=0,
+                max_recompute=None, seed=rng.randint(0, 10 ** 6), ops=ops)
+
+
 def extra_streams(rng, tier):
     n = {"quick": 140, "thorough": 2500}[tier]
-    return [("d", CORR_HEADER, CHECK_FN, [make_case(rand_direct(rng, tier)) for _ in range(n)])]
+    cases = [make_case(rand_hashprobe(rng) if i % 4 == 0 else rand_direct(rng, tier)) for i in range(n)]
+    cross_process(cases)
+    return [("d", CORR_HEADER, CHECK_FN, cases)]
+
+
+# ---------------------------------------------------------------------------------------------
+# reproducibility across processes: the same scenario and random.seed under other PYTHONHASHSEED values
+# ---------------------------------------------------------------------------------------------
+HASHSEEDS = ["1", "4242"]          # the check itself runs with PYTHONHASHSEED=0
+XPROC_MAX = 1500
+
+
+def digest(impl):
+    import hashlib
+    import json
+    return hashlib.sha256(json.dumps([impl["steps"], impl["choices"], impl["energies"], impl["crash"]],
+                                     sort_keys=True).encode()).hexdigest()
+
+
+def other_processes(scs):
+    """digest of the recorded run of every scenario in one fresh interpreter per hash seed; {seed: [digest|None]}"""
+    import json
+    import os
+    import subprocess
+    import sys
+    root = os.path.dirname(os.path.dirname(os.path.abspath(__file__)))
+    procs = {}
+    for hs in HASHSEEDS:
+        env = dict(os.environ, PYTHONHASHSEED=hs)
+        procs[hs] = subprocess.Popen([sys.executable, "-m", "harness.c19", "--worker"], env=env, cwd=root, text=True,
+                                     stdin=subprocess.PIPE, stdout=subprocess.PIPE, stderr=subprocess.PIPE)
+    payload = json.dumps(scs)
+    out = {}
+    for hs, p in procs.items():
+        so, se = p.communicate(payload)
+        try:
+            out[hs] = json.loads(so.strip().split("\n")[-1]) if p.returncode == 0 else [None] * len(scs)
+        except ValueError:
+            out[hs] = [None] * len(scs)
+    return out
+
+
+def cross_process(cases):
+    """annotate cases with impl['xproc'] = {hashseed: same recorded run as in this process?}"""
+    sub = cases[:XPROC_MAX]
+    if not sub:
+        return
+    res = other_processes([c["input"] for c in sub])
+    for i, c in enumerate(sub):
+        own = digest(c["impl"])
+        c["impl"]["xproc"] = {hs: (None if d[i] is None else d[i] == own) for hs, d in res.items()}
 
 
 def _scheduler(sc):
@@ -285,7 +364,9 @@ def gen_cases(rng, n, tier):
             if len(cases) < n:
                 sc2 = dict(sc, seed=rng.randint(0, 10 ** 6))
                 cases.append(make_case(sc2))
-    return cases[:n]
+    cases = cases[:n]
+    cross_process(cases)
+    return cases
 
 
 # ---------------------------------------------------------------------------------------------
@@ -297,6 +378,12 @@ def monitor(case):
         return "the run raised %s" % impl["crash"]
     if not impl.get("repro", True):
         return "two runs with the same random seed differ"
+    for hs, same in sorted(impl.get("xproc", {}).items()):
+        if same is False:
+            return ("the same scenario with the same random.seed gives a different sequence of network states in a "
+                    "process with PYTHONHASHSEED=%s than in this one (PYTHONHASHSEED=%s)" % (hs, os.environ.get("PYTHONHASHSEED", "random")))
+        if same is None:
+            return "the run in a second process (PYTHONHASHSEED=%s) failed to start" % hs
     n = sc["n"]
     arrived, departed_ev = [], []
     occ, queue = [None] * n, []
@@ -398,14 +485,29 @@ def monitor(case):
 def search(rng, budget_s, broken):
     t0 = time.time()
     while time.time() - t0 < budget_s:
-        c = make_case(rand_scenario(rng) if rng.random() < 0.6 else rand_direct(rng))
-        r = monitor(c)
-        if r:
-            return dict(case=c["input"], impl=dict(steps=c["impl"]["steps"][-6:], choices=c["impl"]["choices"],
-                                                   crash=c["impl"]["crash"]), why=r)
+        batch = []
+        for _ in range(60):
+            u = rng.random()
+            batch.append(make_case(rand_scenario(rng) if u < 0.4 else rand_direct(rng) if u < 0.6 else rand_hashprobe(rng)))
+        cross_process(batch)
+        for c in batch:
+            r = monitor(c)
+            if r:
+                return dict(case=c["input"], impl=dict(steps=c["impl"]["steps"][-6:], choices=c["impl"]["choices"],
+                                                       crash=c["impl"]["crash"], xproc=c["impl"].get("xproc")), why=r)
     return None
 
 
 def replay(w):
     c = make_case(w["case"])
+    cross_process([c])
     return monitor(c)
+
+
+if __name__ == "__main__":
+    import json
+    import sys
+    if "--worker" in sys.argv:
+        import warnings
+        warnings.filterwarnings("ignore")
+        print(json.dumps([digest(run_impl(sc)) for sc in json.loads(sys.stdin.read())]))
